@@ -522,6 +522,10 @@ class TypeTransformer:
             return t.utcfromtimestamp(data).replace(tzinfo=timezone.utc)
 
         data = self._from_byte_like(data)
+        if not isinstance(data, str):
+            # what is left can only be read as text (`in` on anything else would walk through it,
+            # without end for an iterator that has none)
+            raise TypeError(f"invalid datetime: {type(data)}")
         is_utc = "GMT" in data or 'UTC' in data or data.endswith("Z") and "T" in data
         data = data.replace('GMT', '').replace('UTC', '').replace('TZD', '').rstrip('Z').strip()
 
